@@ -78,13 +78,44 @@ def parsePlaylist (cs : List Char) : Option Playlist :=
       | _, _ => none
   | _ => none
 
-/-- the sequence number a segment URI of stream `path` (with the caller's token) names -/
+def hexVal (c : Char) : Option Nat :=
+  if '0' ≤ c ∧ c ≤ '9' then some (c.toNat - 48)
+  else if 'a' ≤ c ∧ c ≤ 'f' then some (c.toNat - 87)
+  else if 'A' ≤ c ∧ c ≤ 'F' then some (c.toNat - 55)
+  else none
+
+/-- characters that may stand for themselves in the value of a query parameter (RFC 3986 §3.4
+    `query`, minus the separators of the form encoding `&` `;` `+` `=`… `=` is harmless in a value) -/
+def queryRaw (c : Char) : Bool :=
+  c.isAlphanum || "-._~!$'()*,:@/?=".toList.contains c
+
+/-- the value a query-parameter text stands for (application/x-www-form-urlencoded, as the server
+    decodes it): `%XX` is the byte XX, `+` a space; anything that is neither that nor a character
+    allowed to stand for itself makes the URI malformed (`none`) -/
+def queryValue : List Char → Option (List Char)
+  | [] => some []
+  | '%' :: a :: b :: r =>
+    match hexVal a, hexVal b with
+    | some x, some y => (queryValue r).map (Char.ofNat (x * 16 + y) :: ·)
+    | _, _ => none
+  | c :: r =>
+    if c = '+' then (queryValue r).map (' ' :: ·)
+    else if queryRaw c then (queryValue r).map (c :: ·)
+    else none
+
+/-- the sequence number a segment URI of stream `path` names; the URI must carry the caller's
+    token — a query `?token=<text>` whose text the server will decode to exactly `token` — when one
+    was given, and no query otherwise -/
 def uriSeq (path token uri : List Char) : Option Nat :=
   (dropPrefix? ("/streams".toList ++ path ++ ['/']) uri).bind fun r =>
     let num := r.takeWhile Char.isDigit
     let tail := r.dropWhile Char.isDigit
-    let want := ".ts".toList ++ (if token.isEmpty then [] else "?token=".toList ++ token)
-    if tail = want then digitsToNat? num else none
+    (dropPrefix? ".ts".toList tail).bind fun q =>
+      if token.isEmpty then (if q.isEmpty then digitsToNat? num else none)
+      else
+        match (dropPrefix? "?token=".toList q).bind queryValue with
+        | some t => if t = token then digitsToNat? num else none
+        | none => none
 
 def consecutive : List Nat → Bool
   | a :: b :: r => b == a + 1 && consecutive (b :: r)
